@@ -463,6 +463,14 @@ func (x *Exec) loadField(st *State, ref Term, n *types.Named, f *types.Var) Term
 	m := x.heapMap(st, name, fs)
 	t := tSelect(m, ref, fs)
 	t.Ty = f.Type()
+	if fs == "Ref" && x.dry == 0 {
+		// heap well-formedness: references stored in fields are allocated (or nil)
+		key := "wf:" + t.S
+		if !x.wfSeen[key] {
+			x.wfSeen[key] = true
+		}
+		st.assume(tOr(tEq(t, nullRef), x.isAlloc(st, t)))
+	}
 	return t
 }
 
